@@ -23,6 +23,7 @@ REGISTRY = {
     "C07": ("harness.p_c07", 40, 200),
     "C09": ("harness.p_c09", 60, 300),
     "C08": ("harness.p_c08", 40, 200),
+    "C25": ("harness.p_c25", 40, 240),
     "C19": ("harness.p_c19", 120, 1200),
     "C21": ("harness.p_vsa", 60, 300),
     "C22": ("harness.p_vsa", 60, 300),
